@@ -23,23 +23,29 @@ Section LogFrame.
   Hypothesis ok_call : forall c k act g cb ev src tgt st tag,
     ok (set_calls c k) (ECall act g cb ev src tgt st (field c) tag (depth c)).
   Hypothesis R_nested : forall td c, Rres R c (nested td c).
+  Hypothesis R_write : (forall c f, R c (set_field c f)) \/ no_writes beh.
 
   Let bindR {A B} := @Rres_bind R R_trans A B.
 
-  Lemma lrun_acts : forall l c, Rres R c (run_acts nested l c).
+  Lemma lrun_acts : forall l c,
+    ((forall c f, R c (set_field c f)) \/ existsb is_write l = false) -> Rres R c (run_acts nested l c).
   Proof.
-    induction l as [|a l IH]; intros c; simpl; auto.
-    destruct a as [e tag|x]; simpl; auto.
-    pose proof (R_nested {| td_ev := Some e; td_tag := tag |} c) as Hn.
-    destruct (nested _ c) as [c' v|c' x|]; simpl in *; auto.
-    - eapply (Rres_pre R R_trans); [|apply IH]. eapply R_trans; [exact Hn|apply R_log, ok_nested].
-    - eapply R_trans; [exact Hn|apply R_log, ok_nested].
+    induction l as [|a l IH]; intros c W; simpl; auto.
+    destruct a as [e tag|x|s]; simpl; auto.
+    - assert (W' : (forall c f, R c (set_field c f)) \/ existsb is_write l = false)
+        by (destruct W as [W|W]; [left; exact W|right; exact W]).
+      pose proof (R_nested {| td_ev := Some e; td_tag := tag |} c) as Hn.
+      destruct (nested _ c) as [c' v|c' x|]; simpl in *; auto.
+      + eapply (Rres_pre R R_trans); [|apply IH; exact W']. eapply R_trans; [exact Hn|apply R_log, ok_nested].
+      + eapply R_trans; [exact Hn|apply R_log, ok_nested].
+    - destruct W as [W|W]; [|simpl in W; discriminate].
+      eapply (Rres_pre R R_trans); [apply W|]. apply IH. left; exact W.
   Qed.
 
   Lemma lrun_cb : forall g x cb c, Rres R c (run_cb beh nested g x cb c).
   Proof.
     intros g x cb c. unfold run_cb. apply bindR.
-    - eapply (Rres_pre R R_trans); [|apply lrun_acts].
+    - eapply (Rres_pre R R_trans); [|apply lrun_acts; destruct R_write as [W|W]; [left; exact W|right; apply W]].
       eapply R_trans; [apply R_calls|]. apply R_log. apply ok_call.
     - intros c' a _. simpl. auto.
   Qed.
@@ -168,6 +174,8 @@ Section Sees.
   Variable beh : behaviour.
   Variable rm : rmachine.
   Variables (d : nat) (f : option nat).
+  (* no callback assigns the state itself *)
+  Hypothesis NW : no_writes beh.
 
   Ltac ghost := intros; intros D F; simpl; repeat split; auto; exists []; split; auto.
 
@@ -183,6 +191,7 @@ Section Sees.
     - intros c0 r _ _. exact I.
     - intros c0 k act g cb ev src tgt st tag D F. simpl in *. split; auto.
     - apply sees_flat.
+    - right; exact NW.
   Qed.
 
   Lemma sees_activate_post_body t x c :
@@ -199,6 +208,7 @@ Section Sees.
     - intros c0 r _ _. exact I.
     - intros c0 k act g cb ev src tgt st tag D F. simpl in *. split; auto.
     - apply sees_flat.
+    - right; exact NW.
   Qed.
 End Sees.
 
@@ -239,6 +249,7 @@ Section Deep.
     - intros c0 r _. exact I.
     - intros c0 kk act g cb ev src tgt st tag D. simpl in *. exact D.
     - apply deep_flat.
+    - left; ghostd.
     - ghostd.
     - ghostd.
   Qed.
@@ -255,6 +266,7 @@ Section Deep.
     - intros c0 r _. exact I.
     - intros c0 kk act g cb ev src tgt st tag D. simpl in *. exact D.
     - apply deep_flat.
+    - left; ghostd.
     - ghostd.
     - ghostd.
   Qed.
@@ -322,7 +334,8 @@ Qed.
 
 Lemma trigger_qgrows beh rm td c : Rres qgrows c (trigger beh flat_nested rm td c).
 Proof.
-  apply trigger_R; try (intros; apply qgrows_refl); try (intros; split; [reflexivity|exists []; simpl; now rewrite app_nil_r]).
+  apply trigger_R; try (intros; apply qgrows_refl); try (intros; split; [reflexivity|exists []; simpl; now rewrite app_nil_r]);
+    try (left; intros; split; [reflexivity|exists []; simpl; now rewrite app_nil_r]).
   - apply qgrows_trans.
   - intros td0 c0. simpl. split; auto. exists [td0]. reflexivity.
 Qed.
@@ -382,11 +395,13 @@ Lemma run_acts_calls_nothing : forall acts c c' u,
 Proof.
   induction acts as [|a r IH]; intros c c' u H; simpl in H.
   - inversion H; subst. exists []. split; reflexivity.
-  - destruct a as [e tag|x]; [|discriminate].
-    apply IH in H. destruct H as (l & L & C). unfold logged in *. simpl in L.
-    exists (ENested (NReturned no_res) :: l). split.
-    + simpl. rewrite L, <- app_assoc. reflexivity.
-    + simpl. exact C.
+  - destruct a as [e tag|x|s]; [|discriminate|].
+    + apply IH in H. destruct H as (l & L & C). unfold logged in *. simpl in L.
+      exists (ENested (NReturned no_res) :: l). split.
+      * simpl. rewrite L, <- app_assoc. reflexivity.
+      * simpl. exact C.
+    + apply IH in H. destruct H as (l & L & C). unfold logged in *. simpl in L.
+      exists l. split; assumption.
 Qed.
 
 Lemma run_cb_calls_once beh g x cb c c' v :
